@@ -200,7 +200,8 @@ func objectSize(args ...Object) Object {
 func ifNotExists(args ...Object) Object {
 	obj := args[0]
 
-	if obj == nil || obj.Type() == ObjectTypeNull {
+	// only a MISSING attribute is replaced: an attribute of type NULL exists
+	if isUndefined(obj) {
 		return args[1]
 	}
 
